@@ -132,6 +132,11 @@ func genStream(r *fw.Rand) ([]byte, []string) {
 			et, ep, tag := genEnvelope(r)
 			typ, payload, pk = byte(et), ep, 99
 			tags = append(tags, tag)
+			if et == tStoreReadFilter || et == tStoreReadGroup || et == tCreateIterator || et == tBackupShard {
+				// answered with a data stream: such a request ends the generated stream
+				out = append(out, frame(typ, int64(len(payload)), payload)...)
+				break
+			}
 		}
 		switch {
 		case pk == 99:
@@ -374,7 +379,27 @@ func ChildMain(dir string) {
 		fmt.Println("ERR", err)
 		os.Exit(3)
 	}
+	// metadata with one database, one policy, this node as the only data node and one shard
+	// group (shard 1, owned here) so that well-formed requests reach the processors' cores
 	d := &meta.Data{}
+	if err := d.CreateDatabase("db0"); err != nil {
+		fmt.Println("ERR", err)
+		os.Exit(3)
+	}
+	if err := d.CreateDataNode(n.Addr, n.Addr); err != nil {
+		fmt.Println("ERR", err)
+		os.Exit(3)
+	}
+	rpi := meta.NewRetentionPolicyInfo("rp0")
+	rpi.ReplicaN = 1
+	if err := d.CreateRetentionPolicy("db0", rpi, true); err != nil {
+		fmt.Println("ERR", err)
+		os.Exit(3)
+	}
+	if err := d.CreateShardGroup("db0", "rp0", time.Unix(0, 1600000000000000000)); err != nil {
+		fmt.Println("ERR", err)
+		os.Exit(3)
+	}
 	n.SetData(d)
 	if err := n.Store.CreateShard("db0", "rp0", 1, true); err != nil {
 		fmt.Println("ERR", err)
@@ -479,6 +504,9 @@ func runOp(op string) (out string) {
 		// that cannot be marshalled), which the property does not require
 		var ts []string
 		for _, t := range types {
+			if t == tStoreReadFilter+1 || t == tStoreReadGroup+1 || t == tCreateIterator+1 || t == tBackupShard+1 {
+				break // what follows such a response is a data stream with its own framing
+			}
 			if t == 2 || t == 4 {
 				ts = append(ts, fmt.Sprint(t))
 			}
